@@ -434,6 +434,45 @@ func optionsScenario() *mc.Scenario {
 		}}
 }
 
+// hashScenario: routing starts with key.HashedInt() on the CALLER's goroutine; two callers hashing keys
+// at the same time (statement-level interleavings inside the hashing code) must each get the value a
+// lone caller gets - otherwise operations on one key reach two workers and the per-key order and the
+// cache coherence are gone.  Every key type of the package, two values each.
+func hashScenarios() []*mc.Scenario {
+	type kv struct {
+		name string
+		a, b mux.Hashed2Int
+	}
+	keys := []kv{
+		{"Byte", mux.Byte(1), mux.Byte(200)}, {"Int8", mux.Int8(-3), mux.Int8(77)}, {"Int16", mux.Int16(-300), mux.Int16(777)}, {"UInt16", mux.UInt16(3), mux.UInt16(60000)},
+		{"Int32", mux.Int32(-5), mux.Int32(1 << 30)}, {"UInt32", mux.UInt32(5), mux.UInt32(1 << 31)}, {"Int64", mux.Int64(-9), mux.Int64(1 << 40)}, {"UInt64", mux.UInt64(9), mux.UInt64(1 << 63)},
+		{"Int", mux.Int(11), mux.Int(-12)}, {"UInt", mux.UInt(13), mux.UInt(1 << 62)},
+		{"Int32CRC", mux.Int32CRC(21), mux.Int32CRC(-22)}, {"UInt32CRC", mux.UInt32CRC(23), mux.UInt32CRC(1 << 31)},
+		{"Int64CRC", mux.Int64CRC(31), mux.Int64CRC(-32)}, {"UInt64CRC", mux.UInt64CRC(33), mux.UInt64CRC(1 << 63)},
+		{"IntCRC", mux.IntCRC(41), mux.IntCRC(-42)}, {"UIntCRC", mux.UIntCRC(43), mux.UIntCRC(1 << 62)},
+		{"String", mux.String("alpha"), mux.String("beta-longer")}, {"Bytes", mux.Bytes("gamma"), mux.Bytes("delta-longer")},
+		{"mixed Int64CRC/UIntCRC", mux.Int64CRC(51), mux.UIntCRC(52)}, {"mixed Int32CRC/Int64CRC", mux.Int32CRC(61), mux.Int64CRC(62)},
+	}
+	var scs []*mc.Scenario
+	for _, k := range keys {
+		k := k
+		scs = append(scs, &mc.Scenario{Name: "routing/concurrent-hashing-of-keys/" + k.name + "/fine", PB: [2]int{2, 3}, Fine: true, Main: func(w *mc.World) {
+			{
+				wa, wb := k.a.HashedInt(), k.b.HashedInt()
+				var ga, gb int
+				t1 := w.Go("hash-a", func() { ga = k.a.HashedInt() })
+				t2 := w.Go("hash-b", func() { gb = k.b.HashedInt() })
+				w.Join(t1, t2)
+				w.Touch()
+				if ga != wa || gb != wb {
+					w.Failf("%s keys hashed by two callers at once: HashedInt = %d and %d, a lone caller gets %d and %d - the operation would be routed to another worker's queue", k.name, ga, gb, wa, wb)
+				}
+			}
+		}})
+	}
+	return scs
+}
+
 func scenarios(r *ev.Run) []*mc.Scenario {
 	cfgs := []cfg{
 		{"map/workers=1", 0, 1, []mux.Int{1, 2}, false, false, 0},
@@ -445,7 +484,7 @@ func scenarios(r *ev.Run) []*mc.Scenario {
 		{"map/workers=1/nil-values", 0, 1, []mux.Int{1, 2}, false, true, 0},
 		{"map/workers=1/queue-depth=1", 0, 1, []mux.Int{1, 2}, false, false, 1}, // a third concurrent operation is refused (queue full)
 	}
-	scs := []*mc.Scenario{optionsScenario()}
+	scs := append([]*mc.Scenario{optionsScenario()}, hashScenarios()...)
 	for ci, c := range cfgs {
 		k1, k2 := c.keys[0], c.keys[1]
 		seed := []step{{1, k1}} // key 1 added and cached
